@@ -19,6 +19,7 @@ func c11Configs(thorough bool) []lockCfg {
 	cs := []lockCfg{
 		{Name: "two-tied-max2-tk2w3", Powers: []uint64{2, 2}, MaxValidators: 2, Tk2Weight: 3, Tk2Threshold: 0, Candidates: 3},
 		{Name: "one-max3-tk2thr", Powers: []uint64{3}, MaxValidators: 3, Tk2Weight: 0, Tk2Threshold: 1, Candidates: 2},
+		{Name: "two-max2-equal-delays", Powers: []uint64{3, 2}, MaxValidators: 2, Tk2Weight: 1, Tk2Threshold: 0, Candidates: 3, EqualDurations: true},
 	}
 	if thorough {
 		cs = append(cs, lockCfg{Name: "three-max2", Powers: []uint64{2, 2, 3}, MaxValidators: 2, Tk2Weight: 1, Tk2Threshold: 1, Candidates: 4})
@@ -58,6 +59,7 @@ func c11Menu(c lockCfg, thorough bool) func(w *engb.World, st *engb.LState, dept
 		// two events per block
 		engb.LBlock{Dt: 1, Ops: []engb.LOp{{Kind: "lock", Val: 0, Token: 1, Amt: "150"}, {Kind: "unlock", Val: 0, Token: 1, Amt: "1000"}}},
 		engb.LBlock{Dt: 1, Ops: []engb.LOp{{Kind: "unlock", Val: 0, Token: 0, Amt: amt(1)}, {Kind: "unlock", Val: 0, Token: 0, Amt: amt(3)}}},
+		engb.LBlock{Dt: 1, Ops: []engb.LOp{{Kind: "unlock", Val: 0, Token: 0, Amt: "1"}, {Kind: "unlock", Val: 1, Token: 0, Amt: amt(1)}}}, // an ordinary and (where v1 then drops below the threshold) an exit unlock in one list
 		engb.LBlock{Dt: 1, Absent: []int{0}, Ops: []engb.LOp{{Kind: "unlock", Val: 0, Token: 0, Amt: "1"}}},
 		engb.LBlock{Dt: 1, Absent: []int{0}, Ops: []engb.LOp{{Kind: "lock", Val: 0, Token: 1, Amt: "150"}}},
 		engb.LBlock{Dt: 1, Ops: []engb.LOp{{Kind: "lock", Val: 0, Token: 0, Amt: "1"}, {Kind: "lock", Val: 9, Token: 0, Amt: "5"}}}, // second names an unknown validator: whole tx must roll back
@@ -234,7 +236,11 @@ func runC11(r *mc.Run) {
 	cfgs := c11Configs(r.Thorough())
 	completed := depth
 	for _, c := range cfgs {
-		e := &engb.Explorer{Run: r, NewRoot: c.newRoot, Menu: c11Menu(c, r.Thorough()), Monitor: c11Monitor(r, c), Depth: depth, ConformanceDepth: 2, WantMid: true}
+		d := depth
+		if c.EqualDurations {
+			d = depth - 2 // the corner this configuration adds shows in the block of the requests; the budget goes to the other two
+		}
+		e := &engb.Explorer{Run: r, NewRoot: c.newRoot, Menu: c11Menu(c, r.Thorough()), Monitor: c11Monitor(r, c), Depth: d, ConformanceDepth: 2, WantMid: true}
 		if err := e.Explore(); err != nil {
 			panic(err)
 		}
